@@ -174,6 +174,40 @@ impl C18 {
                         continue;
                     }
                     let extra = json!({"resource": rid, "kind": edit.kind, "pos": edit.pos, "new_text": newtext});
+                    // the store-level report must be the tally of the per-annotation verdicts (which are checked below)
+                    {
+                        let (mut nv, mut ni, mut nm) = (0usize, 0usize, 0usize);
+                        let mut panicked = false;
+                        for a in re.annotations() {
+                            match catch(|| a.validate_text()) {
+                                Ok(Some(true)) => nv += 1,
+                                Ok(Some(false)) => ni += 1,
+                                Ok(None) => nm += 1,
+                                Err(_) => panicked = true,
+                            }
+                        }
+                        if !panicked {
+                            self.validations.fetch_add(1, Ordering::Relaxed);
+                            match catch(|| {
+                                let r = re.validate_text(true);
+                                (r.valid(), r.invalid(), r.missing())
+                            }) {
+                                Ok(got) => {
+                                    if got != (nv, ni, nm) {
+                                        let symptom = if got.1 < ni { "store-report-misses-invalid" } else if got.1 > ni { "store-report-extra-invalid" } else { "store-report-tally-differs" };
+                                        fail(
+                                            &format!("edit:{}", edit.kind),
+                                            symptom,
+                                            "-",
+                                            format!("resource {} text {:?} -> {:?}: store.validate_text() reports (valid, invalid, missing) = {:?}, the annotations one by one give {:?}", rid, text, newtext, got, (nv, ni, nm)),
+                                            extra.clone(),
+                                        );
+                                    }
+                                }
+                                Err(p) => fail(&format!("edit:{}", edit.kind), &format!("store-validate-panic:{}", msg_class(&p)), "-", "store.validate_text panicked".into(), extra.clone()),
+                            }
+                        }
+                    }
                     for (a, (orig, cur)) in re.annotations().zip(originals.iter().zip(now.iter())) {
                         let changed = orig.1 != cur.1;
                         if !changed && orig.2 != cur.2 {
@@ -235,6 +269,12 @@ pub fn run(rep: &Reporter) -> Coverage {
         Op::Annotate { id: Some("long".into()), target: Target::simple(TSimple::Text { res: "r0".into(), off: Off::simple(1, 44) }), data: vec![] }];
     allplans.push(Plan { name: "45-codepoint resource with a 43-codepoint annotation pre-created", al: Alphabet::quick(), init: long_init.clone(), depth: if rep.tier == Tier::Quick { 1 } else { 2 } });
     oracle.check_state(rep, &long_init, 0);
+    // two annotations that select the same characters at different places (protect_text shares their reference data)
+    let t = |b, e| Target::simple(TSimple::Text { res: "r0".into(), off: Off::simple(b, e) });
+    let dup_init = vec![Op::AddRes { id: "r0".into(), text: "ab ab".into() }, Op::AddSet { id: "s0".into() },
+        Op::Annotate { id: Some("d0".into()), target: t(0, 2), data: vec![] }, Op::Annotate { id: Some("d1".into()), target: t(3, 5), data: vec![] }];
+    allplans.push(Plan { name: "resource 'ab ab' with annotations on both 'ab' pre-created", al: Alphabet::quick(), init: dup_init.clone(), depth: if rep.tier == Tier::Quick { 1 } else { 2 } });
+    oracle.check_state(rep, &dup_init, 1);
     for plan in allplans {
         let stats = explore(rep, &oracle, &plan.init, &plan.al, plan.depth, budget);
         cov.states += stats.states;
@@ -256,7 +296,7 @@ pub fn run(rep: &Reporter) -> Coverage {
     cov.extra.insert("explorations".into(), json!(runs));
     cov.extra.insert("validate_text_calls".into(), json!(oracle.validations.load(Ordering::Relaxed)));
     cov.extra.insert("stores_reloaded".into(), json!(oracle.reloads.load(Ordering::Relaxed)));
-    cov.rule = "every distinct state with at least one annotation of the history exploration (as C01, one level less) x 4 protection modes: protect_text must succeed, every annotation that selects text validates Some(true) and validate_text().invalid()==0, before and after a JSON save+reload; then for every resource every single-codepoint edit (substitution by a fresh 1-byte, 2-byte and whitespace character at each position, insertion of a letter and of a space at each position, deletion at each position) is applied to the serialised store, the store is reloaded (edits that push an offset out of range do not load and are skipped) and each annotation's validate_text() must be Some(false) exactly when the characters it selects differ from those it selected before; one extra exploration starts from a 45-codepoint resource so that Auto takes the checksum branch; non-trivial = states with a removed and a live annotation".into();
+    cov.rule = "every distinct state with at least one annotation of the history exploration (as C01, one level less) x 4 protection modes: protect_text must succeed, every annotation that selects text validates Some(true) and validate_text().invalid()==0, before and after a JSON save+reload; then for every resource every single-codepoint edit (substitution by a fresh 1-byte, 2-byte and whitespace character at each position, insertion of a letter and of a space at each position, deletion at each position) is applied to the serialised store, the store is reloaded (edits that push an offset out of range do not load and are skipped) and each annotation's validate_text() must be Some(false) exactly when the characters it selects differ from those it selected before; the store-level report of the reloaded store must be the tally of the per-annotation verdicts; one extra exploration starts from a 45-codepoint resource so that Auto takes the checksum branch, one from a resource 'ab ab' with an annotation on each 'ab' (identical selected text at different places); non-trivial = states with a removed and a live annotation".into();
     cov.assumptions = vec![
         "annotations that select no text are only required not to be reported invalid".into(),
         "when an edit changes the pieces of a multi-selection but not their concatenation the case is skipped (validation works on the joined text)".into(),
